@@ -28,3 +28,9 @@ pub mod c11_nostd;
 pub mod c17_osc;
 #[cfg(all(kani, feature = "c19"))]
 pub mod c19_envelope;
+#[cfg(kani)]
+pub mod sigprobe;
+#[cfg(all(kani, feature = "c04"))]
+pub mod c04_adaptors;
+#[cfg(all(kani, feature = "c05"))]
+pub mod c05_exhaustion;
